@@ -99,7 +99,7 @@ package verifier
 
 //@ func (*LogStore).verify
 //@   props C16 C17
-//@   requires s.s != nil && s.metrics != nil && report != nil
+//@   requires s.s != nil && s.metrics != nil && report != nil && report.Err == nil
 //@   assigns report.Err, report.ReadSum
 //@   ensures[C17.written-mismatch-reported] old(report.WrittenSum) != 0 && old(report.WrittenSum) != old(report.ExpectedSum) ==> report.Err != nil
 //@   ensures[C16.range-mismatch-no-read] old(report.WrittenSum) == 0 || old(report.WrittenSum) == old(report.ExpectedSum) ==> nevent("call:raft.LogStore.FirstIndex") == 1
